@@ -670,9 +670,9 @@ def tags(case, impl, model):
         t.append("hyp.dom=" + str(out["hyp"]["dom"]))
         if "region" in out["hyp"]:
             t.append("hyp.region=" + str(out["hyp"]["region"]))
-            if class_depth(case["cls"]) >= 2 and not case["camel"]:
+            if class_depth(case["cls"]) >= 2:
                 t.append(f"nested-class-tree:region={out['hyp']['region']}")
-            if class_depth(case["cls"]) >= 3 and not case["camel"]:
+            if class_depth(case["cls"]) >= 3:
                 t.append(f"depth>=3:region={out['hyp']['region']}")
     return t
 
